@@ -69,13 +69,24 @@ package ice
 
 //@ func (*controlledSelector).HandleSuccessResponse
 //@   props C03 C02 C20
+//@   ghostvar target int = 0
+//@   ghostvar deferredWins bool = false
+//@   ghostvar deferredSuperseded bool = false
+//@   ghostvar selectedBefore int = 0
+//@   site store state#1 ghost target := pair
+//@   site store state#1 ghost selectedBefore := s.agent.getSelectedPair()
+//@   site store state#1 ghost deferredWins := pair.nominateOnBindingSuccess && pair.nominationValueOnBindingSuccess != nil && s.lastNomination != nil && *pair.nominationValueOnBindingSuccess == *s.lastNomination
+//@   site store state#1 ghost deferredSuperseded := pair.nominateOnBindingSuccess && pair.nominationValueOnBindingSuccess != nil && !(s.lastNomination != nil && *pair.nominationValueOnBindingSuccess == *s.lastNomination)
+//@   ensures C20 deferred-valued-nomination-wins-regardless-of-priority: deferredWins ==> s.agent.getSelectedPair() == cast(target, *CandidatePair)
+//@   ensures C20 superseded-deferred-nomination-never-selects: deferredSuperseded ==> s.agent.getSelectedPair() == cast(selectedBefore, *CandidatePair)
 //@   site call handleInboundBindingSuccess#1 ghost s.agent.gTxOK := result0
 //@   site call responseSymmetric#1 assert C02 symmetric-check-after-transaction: s.agent.gTxOK && arg0 == pendingRequest
 //@   site call responseSymmetric#1 ghost s.agent.gSymOK := result
 //@   site call findPair#1 assert C02 pair-lookup-after-checks: s.agent.gTxOK && s.agent.gSymOK && arg1 == local && arg2 == remote
 //@   site store state#1 assert C03 succeeded-only-after-matched-transaction: s.agent.gTxOK && s.agent.gSymOK && object == pair && pair != nil && value == pairSucceeded
-//@   site call setSelectedPair#1 assert C03 selects-only-nominated-valid: s.agent.gTxOK && s.agent.gSymOK && pair.nominateOnBindingSuccess && arg1 == pair && pair.state == pairSucceeded
-//@   site call setSelectedPair#1 assert C03 deferred-priority-guard: selectedPair == nil || (selectedPair != pair && (!(!s.agent.lite || s.agent.enableUseCandidateCheckPriority) || selectedPair.priority() <= pair.priority()))
+//@   site call setSelectedPair#0 assert C03 selects-only-nominated-valid: s.agent.gTxOK && s.agent.gSymOK && pair.nominateOnBindingSuccess && arg1 == pair && pair.state == pairSucceeded
+//@   site call setSelectedPair#1 assert C20 valued-deferred-nomination-is-the-latest: pair.nominationValueOnBindingSuccess != nil && s.lastNomination != nil && *pair.nominationValueOnBindingSuccess == *s.lastNomination
+//@   site call setSelectedPair#2 assert C03 deferred-priority-guard: pair.nominationValueOnBindingSuccess == nil && (selectedPair == nil || (selectedPair != pair && (!(!s.agent.lite || s.agent.enableUseCandidateCheckPriority) || selectedPair.priority() <= pair.priority())))
 //@   ensures C02 unknown-transaction-changes-nothing-else: !s.agent.gTxOK ==> unchangedExcept("H_ice.Agent.gTxOK", "H_ice.Agent.gSymOK", "H_ice.Agent.pendingBindingRequests*", "H_ice.bindingRequest.*", "E_*")
 //@   ensures C02 asymmetric-changes-nothing-else: s.agent.gTxOK && !s.agent.gSymOK ==> unchangedExcept("H_ice.Agent.gTxOK", "H_ice.Agent.gSymOK", "H_ice.Agent.pendingBindingRequests*", "H_ice.bindingRequest.*", "E_*")
 
@@ -88,6 +99,7 @@ package ice
 //@   site call shouldSwitchSelectedPair#1 assert C03 switch-decision-on-valid-pair: pair.state == pairSucceeded && s.agent.gNomAccepted && arg1 == pair && arg3 == nominationValue
 //@   site call setSelectedPair#1 assert C03 selects-only-nominated-valid: (hasUseCandidate || hasValidNomination) && s.agent.gNomAccepted && pair.state == pairSucceeded && arg1 == pair
 //@   site store nominateOnBindingSuccess#1 assert C03 deferred-only-when-nominated: (hasUseCandidate || hasValidNomination) && s.agent.gNomAccepted && object == pair && value == true && pair.state != pairSucceeded
+//@   site store nominationValueOnBindingSuccess#1 assert C20 deferred-nomination-keeps-its-value: object == pair && value == nominationValue && pair.state != pairSucceeded && s.agent.gNomAccepted
 //@   site call sendBindingSuccess#1 assert C20 rejected-nomination-still-answered: !s.agent.gNomAccepted && arg1 == message
 
 //@ func (*Agent).handleBindingRequestWithCustomHandler
@@ -107,6 +119,7 @@ package ice
 // constructors / bookkeeping functions listed here, which are covered by C06).
 //@ enumerate C03 calls ice.(*Agent).setSelectedPair in (*controllingSelector).HandleSuccessResponse, (*controlledSelector).HandleSuccessResponse, (*controlledSelector).HandleBindingRequest, (*Agent).handleBindingRequestWithCustomHandler, (*Agent).replaceRemoteInPairs, (*Agent).updateConnectionState, (*Agent).Restart
 //@ enumerate C03 stores ice.CandidatePair.nominateOnBindingSuccess in (*controlledSelector).HandleBindingRequest, replacePairRemote
+//@ enumerate C20 stores ice.CandidatePair.nominationValueOnBindingSuccess in (*controlledSelector).HandleBindingRequest, replacePairRemote
 //@ enumerate C03 stores ice.CandidatePair.state in (*controllingSelector).HandleSuccessResponse, (*controlledSelector).HandleSuccessResponse, (*controlledSelector).HandleBindingRequest, (*Agent).handleBindingRequestWithCustomHandler, replacePairRemote, (*Agent).pingAllCandidates, (*Agent).keepAliveCandidatesForRenomination, (*Agent).addPair, newCandidatePair
 //@ enumerate C03 calls ice.UseCandidate in (*controllingSelector).nominatePair, (*Agent).sendNominationRequest
 //@ enumerate C03 calls ice.(*controllingSelector).nominatePair in (*controllingSelector).ContactCandidates, (*controllingSelector).HandleBindingRequest
